@@ -139,7 +139,7 @@ package presign
 // ---- Finalize methods (C05): with the state the previous rounds stored (every signer's entries present -- the handler
 // finalizes a round only after all its messages were stored, C07 -- and of the shapes the acceptance gates let
 // through) nothing panics; sampled masks stay inside Paillier's plaintext range.
-//@ pred psall(r *presign1) := forall(j, party.ID, inslice(r.Helper.partyIDs, j) ==> psparty(r, j)) && inslice(r.Helper.partyIDs, r.Helper.info.SelfID) && forall(x, party.ID, inslice(r.Helper.otherPartyIDs, x) ==> inslice(r.Helper.partyIDs, x)) && paillier.skwf(r.SecretPaillier) && r.SecretECDSA != nil && r.SecretElGamal != nil
+//@ pred psall(r *presign1) := forall(j, party.ID, inslice(r.Helper.partyIDs, j) ==> psparty(r, j)) && each(r.Helper.otherPartyIDs, x, psparty(r, x)) && psparty(r, r.Helper.info.SelfID) && inslice(r.Helper.partyIDs, r.Helper.info.SelfID) && forall(x, party.ID, inslice(r.Helper.otherPartyIDs, x) ==> inslice(r.Helper.partyIDs, x)) && paillier.skwf(r.SecretPaillier) && r.SecretECDSA != nil && r.SecretElGamal != nil
 //@ func (*presign1).Finalize
 //@   nopanic[C05]
 //@   use bits
